@@ -306,6 +306,9 @@ def run_unit(name, outdir, repo='/repo', canary=False, contracts=None, extra=Non
     os.makedirs(outdir, exist_ok=True)
     path = os.path.join(outdir, name + ('_canary' if canary else '') + tag + '.rs')
     open(path, 'w').write(text)
+    if canary and not (extra and '--rlimit' in extra):
+        # a vacuous contract proves `ensures <fresh bool>` at once; "not proved within a small limit" is the expected outcome
+        extra = (extra or []) + ['--rlimit', '5']
     vr = run_verus(path, extra=extra, multiple_errors=(1 if canary else 20))
     failures, undecided = analyse(name, vr, linemap, u.report, path, frame_type=u.cfg.get('frame_type'))
     # a frame violation makes the rest of the front-end output irrelevant
